@@ -256,6 +256,20 @@ def rule_r4(ctx):
                 ctx.r.ok(rid, "header names are only case-normalised (%s)" % sorted(meths), f.loc(st))
             else:
                 ctx.r.violation(rid, key_of(f, None, "name-rewritten"), "a header name is changed by more than letter case: %s" % norm(st)[:70], f.loc(st))
+    early = [x for x in ast.walk(lp) if isinstance(x, (ast.Break, ast.Return))]
+    if early:
+        ctx.r.violation(rid, key_of(f, None, "headers-loop-left-early"), "the loop over the application's headers can be left early (%s): the headers after that one are dropped from the response head" % norm(early[0]), f.loc(early[0]))
+    else:
+        ctx.r.ok(rid, "the loop over the application's headers visits every header", f.loc(lp))
+    gl = cfg_of(f)
+    for cn in [x for x in gl.nodes if x.kind == "stmt" and isinstance(x.ast, ast.Continue) and any(y is x.ast for y in ast.walk(lp))]:
+        gs = guards_of(gl, cn)
+        is_cl = any(pol and isinstance(t, ast.Compare) and "Content-Length" in norm(t) for (t, pol) in gs)
+        no_body = any((not pol) and "has_body" in norm(t) for (t, pol) in gs)
+        if is_cl and no_body:
+            ctx.r.ok(rid, "the only header the serialiser drops is Content-Length on a status without a body", f.loc(cn.ast))
+        else:
+            ctx.r.violation(rid, key_of(f, None, "header-dropped"), "an application header is dropped under %s" % [(norm(t), pol) for (t, pol) in gs], f.loc(cn.ast))
     apps = [c for c in ast.walk(lp) if isinstance(c, ast.Call) and isinstance(c.func, ast.Attribute) and c.func.attr == "append" and c.args and isinstance(c.args[0], ast.Tuple)]
     if apps and all(len(c.args[0].elts) == 2 and dotted(c.args[0].elts[0]) == hn and dotted(c.args[0].elts[1]) == hv for c in apps):
         ctx.r.ok(rid, "normalised (name, value) pairs keep the value untouched", f.loc(apps[0]))
@@ -349,7 +363,14 @@ def rule_r6(ctx):
     ctx.r.floor(rid, n, 10, "error class constants")
 
 
-RULES = [rule_r1, rule_r2, rule_r3, rule_r4, rule_r5, rule_r6]
+def rule_r7(ctx):
+    """Shared with C03.R11: 'exactly the application's header fields' - the only application header the server removes
+    is Content-Length, recognised by an equality test on the case-normalised name."""
+    from . import c03
+    c03.rule_r11(ctx, rid="C08.R7")
+
+
+RULES = [rule_r1, rule_r2, rule_r3, rule_r4, rule_r5, rule_r6, rule_r7]
 
 from ..selftest import M, T, V  # noqa: E402
 
